@@ -128,67 +128,74 @@ theorem rejects_iff_numpy_rejects_broadcast (s1 s2 : List Nat) :
 example : bshape2 [2, 3] [3] false = .ok [2, 3] ∧ bshape2 [2, 3] [2] false = .error Err.value := by
   constructor <;> rfl
 
-/-- the full statement for `reshape`: the library accepts exactly the target shapes NumPy accepts and rejects the others
-with `ValueError` -/
-def Statement_rejects_iff_numpy_rejects_reshape : Prop :=
+/-- **rejects_iff_numpy_rejects_reshape.** For EVERY array shape and EVERY target shape, `COO.reshape` accepts exactly the
+targets NumPy accepts (`_fix_unknown_dimension`: at most one unknown extent, the product of the others non-zero and dividing
+the size; without an unknown extent the products agree) that have no extent below `-1`, and every rejection is a `ValueError`.
+(NumPy reads every negative extent as "unknown"; the library knows only `-1` and rejects `-2`, `-3`, … cleanly — stricter than
+NumPy, which the property allows.  Before the repair 999f0e4 this held only outside `ExcludedSeveralUnknown` and
+`ExcludedInfExtent`.) -/
+theorem rejects_iff_numpy_rejects_reshape (old : List Nat) (shape : List Int) :
+    ((∃ s, reshapeShape old shape = .ok s) ↔ npReshapeOk old shape ∧ ¬ OtherNegative shape) ∧
+    (∀ e, reshapeShape old shape = .error e → e = Err.value) :=
+  reshapeShape_spec old shape
+
+/-- the property's statement for `reshape`: every target shape NumPy rejects is rejected, and every rejection — of whatever
+target — is a `ValueError` -/
+def Statement_reshape_rejects_what_numpy_rejects : Prop :=
   ∀ (old : List Nat) (shape : List Int),
-    ((∃ s, reshapeShape old shape = .ok s) ↔ npReshapeOk old shape) ∧
+    (¬ npReshapeOk old shape → ∃ e, reshapeShape old shape = .error e) ∧
     (∀ e, reshapeShape old shape = .error e → e = Err.value)
 
-/-- **reshape_counterexample_several_unknown.** a size-1 array reshaped to `(-1, -1)`: accepted as `(1, 1)`, NumPy raises
-"can only specify one unknown dimension" -/
-theorem reshape_counterexample_several_unknown :
-    (reshapeShape [1] [-1, -1]).toOption = some [1, 1] ∧ ¬ npReshapeOk [1] [-1, -1] := by decide
+/-- **reshape_rejects_what_numpy_rejects.** The full statement holds, with no excluded region. -/
+theorem reshape_rejects_what_numpy_rejects : Statement_reshape_rejects_what_numpy_rejects := by
+  intro old shape
+  obtain ⟨h1, h2⟩ := reshapeShape_spec old shape
+  refine ⟨fun hno => ?_, h2⟩
+  cases h : reshapeShape old shape with
+  | error e => exact ⟨e, rfl⟩
+  | ok s => exact absurd (h1.mp ⟨s, h⟩).1 hno
 
-/-- **reshape_counterexample_overflow.** a non-empty array reshaped to `(-1, 0)`: `int(inf)` — `OverflowError`, not `ValueError` -/
-theorem reshape_counterexample_overflow : reshapeShape [3, 3] [-1, 0] = .error Err.overflow := by
-  simp [reshapeShape, iprod, prod]
+/-- **reshape_retired_witnesses_rejected.** The witnesses of the two repaired defects are now rejected with `ValueError`:
+several `-1` that "happen to match" (`(1,) → (-1,-1)`, `(3,) → (-1,-1,3)`, `(2,3) → (-1,-1,6)`) and a `-1` next to a zero extent on a
+non-empty array (`(3,3) → (-1,0)`, formerly `int(inf)`: `OverflowError`; `() → (0,-1)`). -/
+theorem reshape_retired_witnesses_rejected :
+    reshapeShape [1] [-1, -1] = .error Err.value ∧ reshapeShape [3] [-1, -1, 3] = .error Err.value ∧
+    reshapeShape [2, 3] [-1, -1, 6] = .error Err.value ∧
+    reshapeShape [3, 3] [-1, 0] = .error Err.value ∧ reshapeShape [] [0, -1] = .error Err.value ∧
+    ¬ npReshapeOk [1] [-1, -1] ∧ ¬ npReshapeOk [3, 3] [-1, 0] := by decide
 
-/-- **reshape_counterexample_other_negative.** NumPy reads `-2` as the unknown extent; the library rejects it (cleanly) -/
-theorem reshape_counterexample_other_negative :
-    (reshapeShape [4] [-2, 2]).toOption = none ∧ npReshapeOk [4] [-2, 2] := by decide
+/-- **reshape_other_negative_stricter.** the one remaining difference to NumPy: `-2` is NumPy's unknown extent; the library
+rejects it (cleanly) -/
+theorem reshape_other_negative_stricter :
+    reshapeShape [4] [-2, 2] = .error Err.value ∧ npReshapeOk [4] [-2, 2] ∧ OtherNegative [-2, 2] := by decide
 
-theorem not_Statement_rejects_iff_numpy_rejects_reshape : ¬ Statement_rejects_iff_numpy_rejects_reshape := by
-  intro h
-  have := (h [3, 3] [-1, 0]).2 _ reshape_counterexample_overflow
-  cases this
-
-/-- **rejects_iff_numpy_rejects_reshape_partial.** Outside the three decidable regions — several `-1`
-(`ExcludedSeveralUnknown`), a `-1` next to a zero extent on a non-empty array (`ExcludedInfExtent`), an extent below `-1`
-(`ExcludedOtherNegative`) — `COO.reshape` accepts exactly what NumPy accepts and every rejection is a `ValueError`. -/
-theorem rejects_iff_numpy_rejects_reshape_partial (old : List Nat) (shape : List Int)
-    (h1 : ¬ ExcludedSeveralUnknown shape) (h2 : ¬ ExcludedInfExtent old shape) (h3 : ¬ ExcludedOtherNegative shape) :
-    ((∃ s, reshapeShape old shape = .ok s) ↔ npReshapeOk old shape) ∧
-    (∀ e, reshapeShape old shape = .error e → e = Err.value) :=
-  reshapeShape_spec old shape h1 h2 h3
-
-example : ¬ ExcludedSeveralUnknown [2, -1] ∧ ¬ ExcludedInfExtent [2, 3] [2, -1] ∧ ¬ ExcludedOtherNegative [2, -1] ∧
-    (reshapeShape [2, 3] [2, -1]).toOption = some [2, 3] ∧ (reshapeShape [2, 3] [4, -1]).toOption = none := by decide
+example : npReshapeOk [2, 3] [2, -1] ∧ ¬ OtherNegative [2, -1] ∧
+    (reshapeShape [2, 3] [2, -1]).toOption = some [2, 3] ∧ (reshapeShape [2, 3] [4, -1]).toOption = none ∧
+    (reshapeShape [0, 3] [-1, 5]).toOption = some [0, 5] := by decide
 
 /-- the full statement for the COO constructor (1-d `data` of length `n`, integer `coords` of shape `(rows, cols)`) -/
 def Statement_ctor_rejects_malformed : Prop :=
-  ∀ (rows cols n : Nat) (sh : List Int), (∃ r, cooCtor rows cols 1 n (some sh) = .ok r) ↔ ctorContract rows cols n sh
-
-/-- **ctor_counterexample.** `COO(coords of shape (0, 3), data of length 1, shape=())` is accepted: the two length tests sit
-under `if self.shape:` -/
-theorem ctor_counterexample : (cooCtor 0 3 1 1 (some [])).toOption = some [] ∧ ¬ ctorContract 0 3 1 [] := by decide
-
-theorem not_Statement_ctor_rejects_malformed : ¬ Statement_ctor_rejects_malformed := by
-  intro h
-  have := (h 0 3 1 []).mp ⟨[], rfl⟩
-  exact ctor_counterexample.2 this
-
-/-- **ctor_rejects_malformed_partial.** For every shape with at least one axis the constructor accepts exactly the inputs of its
-contract (non-negative extents, one coordinate row per axis, one datum per coordinate column — or no coordinates and no
-data), and every rejection is a `ValueError`. -/
-theorem ctor_rejects_malformed_partial (rows cols n : Nat) (sh : List Int) (hne : sh ≠ []) :
+  ∀ (rows cols n : Nat) (sh : List Int),
     ((∃ r, cooCtor rows cols 1 n (some sh) = .ok r) ↔ ctorContract rows cols n sh) ∧
-    (∀ e, cooCtor rows cols 1 n (some sh) = .error e → e = Err.value) :=
-  ctor_partial rows cols n sh hne
+    (∀ e, cooCtor rows cols 1 n (some sh) = .error e → e = Err.value)
+
+/-- **ctor_rejects_malformed.** For EVERY shape — `()` included (the two length tests sat under `if self.shape:` before the
+repair 22a856d) — the constructor accepts exactly the inputs of its contract (non-negative extents, one coordinate row per
+axis, one datum per coordinate column — or no coordinates and no data for a shape with an axis), and every rejection is a
+`ValueError`. -/
+theorem ctor_rejects_malformed : Statement_ctor_rejects_malformed :=
+  fun rows cols n sh => ctor_spec rows cols n sh
+
+/-- **ctor_retired_witness_rejected.** the witnesses of the repaired defect: `COO(coords of shape (0, 3), data of length 1,
+shape=())` and `COO(np.zeros((0, 1)), [3, 2], shape=())` are rejected with `ValueError`; the contract rejects them too -/
+theorem ctor_retired_witness_rejected :
+    cooCtor 0 3 1 1 (some []) = .error Err.value ∧ cooCtor 0 1 1 2 (some []) = .error Err.value ∧
+    ¬ ctorContract 0 3 1 [] ∧ ¬ ctorContract 0 1 2 [] := by decide
 
 example : ctorContract 2 3 3 [4, 5] ∧ (cooCtor 2 3 1 3 (some [4, 5])).toOption = some [4, 5] ∧
     (cooCtor 2 3 1 2 (some [4, 5])).toOption = none ∧ (cooCtor 1 3 1 3 (some [4, 5])).toOption = none ∧
-    (cooCtor 2 3 1 3 (some [4, -5])).toOption = none := by decide
+    (cooCtor 2 3 1 3 (some [4, -5])).toOption = none ∧
+    ctorContract 0 1 1 [] ∧ (cooCtor 0 1 1 1 (some [])).toOption = some [] := by decide
 
 /-! ## (b) termination -/
 
@@ -237,8 +244,9 @@ example : Loops.slicingSelection none #[1, 2] [(0, 2)] #[2, 1] = .oob := by deci
 /-! ## (c) no internal errors -/
 
 /-- **no_internal_errors.** No modelled operation returns `Err.internal` (nor `overflow`, `runtime`, `notImplemented`, `hang`):
-indexing rejects only with `IndexError`; broadcasting, element-wise application, reductions, GCXS construction and format
-conversion only with `ValueError` — for EVERY input, well-formed or not. -/
+indexing rejects only with `IndexError`; broadcasting, element-wise application, reductions, GCXS construction, format
+conversion, `reshape` (no `OverflowError` any more) and the COO constructor (any data rank, shape given or not) only with
+`ValueError` — for EVERY input, well-formed or not. -/
 theorem no_internal_errors :
     (∀ (x : COO Int) (idx : List IxE) (e : Err), x.getitem idx = .error e → e = Err.index) ∧
     (∀ (s1 s2 : List Nat) (r : Bool) (e : Err), bshape2 s1 s2 r = .error e → e = Err.value) ∧
@@ -247,48 +255,16 @@ theorem no_internal_errors :
     (∀ (f : List Int → Int) (ops : List (Operand Int)) (e : Err), elemwiseN f ops = .error e → e = Err.value) ∧
     (∀ (op : RedOp) (x : COO Int) (axes : Option (List Int)) (kd : Bool) (e : Err), COO.reduce op x axes kd = .error e → e = Err.value) ∧
     (∀ (x : COO Int) (c : Option (List Nat)) (e : Err), GCXS.fromCoo x c = .error e → e = Err.value) ∧
-    (∀ (a : SArr Int) (f : Fmt) (e : Err), a.convert f = .error e → e = Err.value) :=
+    (∀ (a : SArr Int) (f : Fmt) (e : Err), a.convert f = .error e → e = Err.value) ∧
+    (∀ (old : List Nat) (shape : List Int) (e : Err), reshapeShape old shape = .error e → e = Err.value) ∧
+    (∀ (rows cols dn n : Nat) (sh : Option (List Int)) (e : Err), cooCtor rows cols dn n sh = .error e → e = Err.value) :=
   ⟨fun x idx e h => COO.getitem_error x idx e h, bshape2_error, bshapeN_error, fun x s e h => COO.broadcastTo_error x s e h,
    fun f ops e h => elemwiseN_error f ops e h, COO.reduce_error, fun x c e h => GCXS.fromCoo_error x c e h,
-   fun a f e h => convert_error a f e h⟩
+   fun a f e h => convert_error a f e h, fun old shape => (reshapeShape_spec old shape).2,
+   fun rows cols dn n sh e h => cooCtor_error rows cols dn n sh e h⟩
 
 /-- the transposition/flip/roll/squeeze/expand_dims/reshape cores, concatenate/stack/triu/tril/diagonal cores and `GCXS.tocoo`
 are total functions into arrays (no `Except`): they have no error branch at all -/
 example (x : COO Int) (axes : List Nat) : COO Int := x.transposeCore axes
-
-/-- **reshape_error_classes.** `COO.reshape` rejects with `ValueError`, except in the region `ExcludedInfExtent`, where — and
-only where — it raises `OverflowError` -/
-theorem reshape_error_classes (old : List Nat) (shape : List Int) (e : Err) (h : reshapeShape old shape = .error e) :
-    (e = Err.overflow ∧ ExcludedInfExtent old shape) ∨ (e = Err.value ∧ ¬ ExcludedInfExtent old shape) := by
-  unfold reshapeShape at h
-  unfold ExcludedInfExtent
-  split at h
-  · cases h
-  · rename_i hsame
-    simp only [] at h
-    split at h
-    · rename_i hany
-      split at h
-      · rename_i hp
-        split at h
-        · rename_i hs
-          cases h
-          right
-          refine ⟨rfl, ?_⟩
-          rintro ⟨_, _, h0, _⟩
-          apply h0
-          have : ((prod old : Nat) : Int) = 0 := hs
-          omega
-        · rename_i hs
-          cases h
-          left
-          refine ⟨rfl, hany, hp, ?_, hsame⟩
-          intro h0; apply hs; simp [h0]
-      · rename_i hp
-        right
-        exact ⟨reshapeFinish_error _ _ _ h, fun hh => hp hh.2.1⟩
-    · rename_i hany
-      right
-      exact ⟨reshapeFinish_error _ _ _ h, fun hh => hany hh.1⟩
 
 end SparseV.C18
